@@ -15,19 +15,20 @@ open Strengths Strengths.Gen
 /-- the constants the hand-written model hard-codes are the ones in the source: the two separators of
 `_fromstring`, its length tests, the accumulation of repeated labels, the text pieces of `to_string`,
 which dictionaries `order`/`rorder`/`k*_units_dimensions` sum over, what `split()` passes on, the ratio
-taken by `equilibrium_constant`, and the label rules -/
+taken by `equilibrium_constant`, and the label rules.  Statement text is compared with the function's local variables
+renamed `v0, v1, …` in order of first binding, so renaming a local is not a change. -/
 theorem source_constants :
     eqSplitSeps = ["+", "->"] ∧
-    eqLenTests = ["len(tokens)==1", "len(token)==1", "len(token)==2", "len(sides)!=2"] ∧
-    eqAccumulate = ("d[label]=coef", "d[label]+=coef") ∧
-    eqCoefAssigns = ["coef,label=1,\"\"", "coef=int(token[0].strip())"] ∧
+    eqLenTests = ["len(v3)==1", "len(v4)==1", "len(v4)==2", "len(v7)!=2"] ∧
+    eqAccumulate = ("v2[v6]=v5", "v2[v6]+=v5") ∧
+    eqCoefAssigns = ["v5,v6=1,\"\"", "v5=int(v4[0].strip())"] ∧
     toStringConsts = ["", "+ ", " ", " ", "-> "] ∧
-    toStringTests = ["d[s]!=0", "notfirst", "d[s]!=1"] ∧
+    toStringTests = ["v0[v3]!=0", "notv2", "v0[v3]!=1"] ∧
     kfCountsOver = "_substrates" ∧ krCountsOver = "_products" ∧
     orderOver = "substrates" ∧ rorderOver = "products" ∧
-    kRatios = ["self.kf/self.kr", "vf/vr"] ∧ kZeroTests = ["self.kr.value==0", "vr.value==0"] ∧
-    labelRaiseConds = ["cinstring.whitespace", "cin\"+\"", "c.count(\"->\")>0"] ∧
-    validityRaiseConds = ["sd.get(s.label,None)!=None", "rd.get(r.label,None)!=None", "rsnotinsl", "rsnotinsl"] := by
+    kRatios = ["self.kf/self.kr", "v3/v4"] ∧ kZeroTests = ["self.kr.value==0", "v4.value==0"] ∧
+    labelRaiseConds = ["v1instring.whitespace", "v1in\"+\"", "v1.count(\"->\")>0"] ∧
+    validityRaiseConds = ["v0.get(v1.label,None)!=None", "v2.get(v3.label,None)!=None", "v6notinv4", "v6notinv4"] := by
   decide +kernel
 
 /-- `split()` builds (substrates → products, kf, kr = 0) and (products → substrates, kr as kf, kr = 0),
@@ -131,17 +132,41 @@ theorem parse_side_render (t : List Char) (ts : List (List Char)) (terms : Terms
 
 theorem parse_side_empty (a : List Char) (ha : AllBlank a) : parseSide a = .ok [] := parseSide_empty a ha
 
-/-- FULL STATEMENT (`parse_render`): for all term lists `lhs rhs` over labels that are words without `+` and without
-`->`, and every choice of blanks, `parseEquation (render lhs rhs) = ok (sumRepeats lhs, sumRepeats rhs)`.
-Proved here with the two facts about the rendered sides as hypotheses: each side text reads as its terms
-(`parse_side_render` / `parse_side_empty` give that from the token theorems above) and contains no `->`.  Missing: the
-derivation of "no `->` inside a rendered side" from "no `->` inside a label" (labels are only ever adjacent to blanks,
-`+`, or the arrow, so no `-`,`>` pair can straddle a boundary) — covered by the correspondence (alphabet `arrowish`). -/
-theorem parse_render_partial (l r : List Char) (sub prod : Side)
+/-- the equation text around its arrow: what the two sides read as (lemma) -/
+theorem parse_equation_of_sides (l r : List Char) (sub prod : Side)
     (hl : hasPair '-' '>' l = false) (hr : hasPair '-' '>' r = false)
     (hsl : parseSide l = .ok sub) (hsr : parseSide r = .ok prod) :
     parseEquation (l ++ '-' :: '>' :: r) = .ok (sub, prod) := by
   rw [parseEquation_sides l r hl hr, hsl, hsr]
+
+/-- a written term reads as its coefficient (1 when omitted) and label, and carries neither `+` nor `->` -/
+theorem rendered_term (t : RTerm) (h : t.WF) :
+    parseToken t.text = .ok t.term ∧ '+' ∉ t.text ∧ hasPair '-' '>' t.text = false := RTerm.render t h
+
+/-- a written side reads as its terms with repeats summed, and carries no `->` (derived from: no label does, and
+labels only ever touch blanks, `+`, or the ends of the side) -/
+theorem rendered_side (s : RSide) (h : s.WF) :
+    parseSide s.text = .ok (sumRepeats s.termList) ∧ hasPair '-' '>' s.text = false := RSide.render s h
+
+/-- `parse_render`: for all term lists `lhs`, `rhs` (`RSide`: no term, or terms `[coefficient] label` joined by `+`)
+over labels that are words without `+` and without `->` (`LabelWord`), with ANY blanks (`str.isspace()` characters)
+before and after every token and at least one between a coefficient and its label, the text `lhs -> rhs` reads as the
+written coefficients with repeats summed.  No hypothesis on the rendered text. -/
+theorem parse_render (l r : RSide) (hl : l.WF) (hr : r.WF) :
+    parseEquation (l.text ++ '-' :: '>' :: r.text) = .ok (sumRepeats l.termList, sumRepeats r.termList) :=
+  parseEquation_render l r hl hr
+
+/-- … and what it reads is a printable pair of dictionaries (distinct keys, label words): the hypotheses of `print_parse` -/
+theorem parsed_sides_printable (s : RSide) (h : s.WF) : (sumRepeats s.termList).WF := by
+  apply sumRepeats_wf
+  cases s with
+  | empty a => intro t ht; simp [RSide.termList] at ht
+  | terms t ts =>
+    intro u hu
+    simp only [RSide.termList, List.mem_cons, List.mem_map] at hu
+    rcases hu with rfl | ⟨v, hv, rfl⟩
+    · exact h.1.w
+    · exact (h.2 v hv).w
 
 /-- text without exactly one arrow is refused: none … -/
 theorem no_arrow_rejected (s : List Char) (h : hasPair '-' '>' s = false) : parseEquation s = .error .badSyntax := by
@@ -173,54 +198,62 @@ example : parseEquation (eqToString [("A".toList, 0), ("B".toList, 12)] [("C".to
 
 /-! ## Splitting, equilibrium constant -/
 
-/-- `split()` of a reaction with single-valued constants: forward = same sides, `kf`, `kr = 0`; reverse = swapped
-sides, `kr` as forward constant, `kr = 0`; both unlabelled, in the reaction's units system.
-(FULL STATEMENT also covers per-environment dictionaries; those are tied by the correspondence only.) -/
-theorem split_spec_partial (sys : Sys) (sub prod : Side) (f b : UVal)
-    (hf : f.u.dim = kDim sub.order) (hb : b.u.dim = kDim prod.order) (label : Option Label) :
-    (Reaction.split ⟨sys, sub, prod, .scalar f, .scalar b, label⟩) =
-      .ok (⟨sys, sub, prod, .scalar f, .scalar ⟨0, ⟨sys, kDim prod.order⟩⟩, none⟩,
-           ⟨sys, prod, sub, .scalar b, .scalar ⟨0, ⟨sys, kDim sub.order⟩⟩, none⟩) := by
-  simp [Reaction.split, mkReactionSides, checkLabel, processKInput, processScalar, KVal.toIn, hf, hb]
+/-- `print_parse`: for every pair of side dictionaries with distinct keys that are label words (non-empty, no
+`str.isspace()` character, no `+`, no `->` — the label rules refuse only the six ASCII blanks and `+`; the rest is what an
+equation text can carry), whatever the coefficients (zero entries, also in first position, are not printed), the text
+`to_string` prints is accepted by the parser and gives equal `ssto`, `psto`, `dsto` for EVERY list of labels -/
+theorem print_parse (sub prod : Side) (hs : sub.WF) (hp : prod.WF) :
+    ∃ sub' prod', parseEquation (eqToString sub prod) = .ok (sub', prod') ∧
+      ∀ labels : List Label, sstoVec sub' prod' labels = sstoVec sub prod labels ∧
+        pstoVec sub' prod' labels = pstoVec sub prod labels ∧ dstoVec sub' prod' labels = dstoVec sub prod labels := by
+  obtain ⟨sub', prod', hparse, h1, h2⟩ := parseEquation_toString sub prod hs hp
+  refine ⟨sub', prod', hparse, fun labels => ?_⟩
+  simp only [sstoVec, pstoVec, dstoVec, h1, h2, and_self]
 
-/-- every reaction the constructor accepts with single-valued constants satisfies the hypotheses of `split_spec_partial` -/
-theorem constructed_constants_have_k_dim (sys : Sys) (sub prod : Side) (kf kr : Scalar) (label : Option Label) (r : Reaction)
-    (h : mkReactionSides sys sub prod (.scalar kf) (.scalar kr) label = .ok r) :
-    ∃ f b, r.kf = .scalar f ∧ r.kr = .scalar b ∧ f.u.dim = kDim sub.order ∧ b.u.dim = kDim prod.order ∧
-      r.sub = sub ∧ r.prod = prod ∧ r.sys = sys := by
+/-- the zero-coefficient first term (seeded mutant C19_m1): `0 A + B -> C` prints as `B -> C ` and reads back -/
+example : parseEquation (eqToString [("A".toList, 0), ("B".toList, 1)] [("C".toList, 1)]) =
+    .ok ([("B".toList, 1)], [("C".toList, 1)]) := by decide +kernel
+
+/-- every constant the constructor stores is well-formed (the order's dimension; dictionaries with distinct canonical
+keys), whatever form it was given in -/
+theorem constructed_constants_wf (sys : Sys) (sub prod : Side) (kf kr : KIn) (label : Option Label) (r : Reaction)
+    (h : mkReactionSides sys sub prod kf kr label = .ok r) :
+    r.kf.WF (kDim r.sub.order) ∧ r.kr.WF (kDim r.prod.order) ∧ r.sub = sub ∧ r.prod = prod ∧ r.sys = sys := by
   unfold mkReactionSides at h
   cases hl : checkLabel label with
   | error e => simp [hl] at h
   | ok u =>
-    simp only [hl, processKInput] at h
-    have key : ∀ (d : Dim) (s : Scalar) (x : UVal), processScalar sys d s = .ok x → x.u.dim = d := by
-      intro d s x hx
-      cases s with
-      | num v => simp [processScalar] at hx; subst hx; rfl
-      | text v us =>
-        simp only [processScalar] at hx
-        cases hp : parseUnits us with
-        | error e => simp [hp] at hx
-        | ok u' =>
-          simp only [hp] at hx
-          by_cases hd : u'.dim = d
-          · simp [hd] at hx; subst hx; exact hd
-          · simp [hd] at hx
-      | badText => simp [processScalar] at hx
-      | uval y =>
-        simp only [processScalar] at hx
-        by_cases hd : y.u.dim = d
-        · simp [hd] at hx; subst hx; exact hd
-        · simp [hd] at hx
-    cases h1 : processScalar sys (kDim sub.order) kf with
+    simp only [hl] at h
+    cases h1 : processKInput sys (kDim sub.order) kf with
     | error e => simp [h1] at h
     | ok f =>
-      cases h2 : processScalar sys (kDim prod.order) kr with
+      cases h2 : processKInput sys (kDim prod.order) kr with
       | error e => simp [h1, h2] at h
       | ok b =>
         simp only [h1, h2, Except.ok.injEq] at h
         subst h
-        exact ⟨f, b, rfl, rfl, key _ _ _ h1, key _ _ _ h2, rfl, rfl, rfl⟩
+        exact ⟨processKInput_wf _ _ _ _ h1, processKInput_wf _ _ _ _ h2, rfl, rfl, rfl⟩
+
+/-- `split_spec`: `split()` of any reaction with well-formed constants — single values or per-environment dictionaries,
+the "default" entry being an entry like the others — is: forward = same sides, the same `kf` (same keys in the same
+order, same values), `kr = 0` in the reverse order's units; reverse = swapped sides, `kr` as forward constant, `kr = 0`;
+both unlabelled, in the reaction's units system -/
+theorem split_spec (r : Reaction) (hf : r.kf.WF (kDim r.sub.order)) (hb : r.kr.WF (kDim r.prod.order)) :
+    r.split = .ok (⟨r.sys, r.sub, r.prod, r.kf, .scalar ⟨0, ⟨r.sys, kDim r.prod.order⟩⟩, none⟩,
+                   ⟨r.sys, r.prod, r.sub, r.kr, .scalar ⟨0, ⟨r.sys, kDim r.sub.order⟩⟩, none⟩) := by
+  have h0 : ∀ d, processKInput r.sys d (.scalar (.num 0)) = .ok (.scalar ⟨0, ⟨r.sys, d⟩⟩) := fun d => rfl
+  simp only [Reaction.split, mkReactionSides, checkLabel, processKInput_again _ _ _ hf, processKInput_again _ _ _ hb, h0]
+
+/-- hence for every reaction the constructor accepts -/
+theorem split_of_constructed (sys : Sys) (sub prod : Side) (kf kr : KIn) (label : Option Label) (r : Reaction)
+    (h : mkReactionSides sys sub prod kf kr label = .ok r) :
+    ∃ f b, r.split = .ok (f, b) ∧ f.sub = sub ∧ f.prod = prod ∧ f.kf = r.kf ∧ b.sub = prod ∧ b.prod = sub ∧ b.kf = r.kr ∧
+      f.kr = .scalar ⟨0, ⟨sys, kDim prod.order⟩⟩ ∧ b.kr = .scalar ⟨0, ⟨sys, kDim sub.order⟩⟩ ∧
+      f.label = none ∧ b.label = none ∧ f.sys = sys ∧ b.sys = sys := by
+  obtain ⟨hf, hb, rfl, rfl, rfl⟩ := constructed_constants_wf sys sub prod kf kr label r h
+  exact ⟨_, _, split_spec r hf hb, rfl, rfl, rfl, rfl, rfl, rfl, rfl, rfl, rfl, rfl, rfl, rfl⟩
+
+example : splitKeys "a , default" = ["a", "default"] := by decide +kernel
 
 /-- equilibrium constant of single-valued constants: none when `kr = 0`, else the quotient -/
 theorem K_scalar (r : Reaction) (f b : UVal) (hf : r.kf = .scalar f) (hb : r.kr = .scalar b) :
